@@ -704,7 +704,7 @@ func main() {
 		Footer:   gallina.StdFooter,
 		PerShard: 50,
 	}
-	n := f.Count(160, 2400)
+	n := f.Count(130, 2400)
 	maxSteps := 25
 	if f.Tier == "thorough" {
 		maxSteps = 50
